@@ -13,7 +13,7 @@ from .common import enc_list, Toks
 
 RULE = ('grammars from the C01/C02 generators (non-recursive and recursive with finite value); k = 4 (quick) / 10 (thorough) presentations '
         'each: shuffled rule order, node order, edge order, ids implicit/explicit/mixed, renamed node labels / edge labels, permuted domain '
-        'values with factor axes and start assignment permuted accordingly; x {Real, Log, Viterbi, Bool} x methods; gradients (Real); '
+        'values with factor axes and start assignment permuted accordingly; x {Real, Log, Viterbi, Bool} x methods; gradients per weight entry (Real, Log); grammars with a non-terminating nonterminal inside a recursive SCC; '
         'viterbi weight; non-trivial = grammar with >= 2 rules and a domain of size >= 2')
 ASSUMPTIONS = ['exact regime (small integer / dyadic weights) so that different summation orders give bit-identical results; '
                'recursive Real/Log grammars are compared within 1e-6 relative instead']
@@ -57,7 +57,11 @@ def presentation(rng, shape, which):
 
 def start_perm(shape, perms, flat):
     """undo the domain permutation on a flat start tensor"""
-    ty = shape['nts'][shape['start']]
+    return unperm(shape, perms, shape['nts'][shape['start']], flat)
+
+
+def unperm(shape, perms, ty, flat):
+    """undo the domain permutation on a flat tensor of type ty"""
     sizes = [shape['nls'][l] for l in ty]
     if not sizes:
         return flat
@@ -71,7 +75,7 @@ def start_perm(shape, perms, flat):
 
 
 def run(ctx):
-    n = 25 if ctx.quick else 400
+    n = 80 if ctx.quick else 400
     kpres = 4 if ctx.quick else 10
     done = 0
     while done < n:
@@ -83,6 +87,13 @@ def run(ctx):
             if not rec:
                 continue
             shape['vweights'] = {i: [min(x, 0.0) for x in w] for i, w in shape['vweights'].items()}
+            if ctx.rng.random() < 0.3:
+                # a nonterminal without terminating derivation inside the SCC: per-rule sum-products that are
+                # structurally absent, at a position that depends on the rule order
+                from .c03 import add_dead_rule
+                shape = add_dead_rule(ctx.rng, shape)
+                rec, lin = sccs_and_linearity(shape)
+                ctx.count('with-dead-rule')
         else:
             from .c01 import gen_shape as g1
             shape = g1(ctx.rng, dom_sizes=(1, 2, 3, 2))
@@ -104,16 +115,23 @@ def run(ctx):
                         fgg, info = semgen.build(shn, name, torch.float64, **kw)
                         with warnings.catch_warnings():
                             warnings.simplefilter('ignore')
-                            if name == 'real':
+                            if name in ('real', 'log'):
                                 for el in info['TL']:
                                     fgg.factors[el.name].weights.physical.requires_grad_(True)
                             z = fggs.sum_product(fgg, method=method, semiring=semgen.semiring_of(name, torch.float64), tol=1e-12, kmax=2000)
-                            val = z.to_dense().reshape(-1).tolist()
+                            zd = z.to_dense()
+                            val = zd.reshape(-1).tolist()
                             grads = None
-                            if name == 'real' and z.physical.requires_grad:
-                                z.to_dense().sum().backward()
-                                grads = [float(fgg.factors[el.name].weights.physical.grad.sum()) if fgg.factors[el.name].weights.physical.grad is not None else 0.0
-                                         for el in info['TL']]
+                            if name in ('real', 'log') and zd.requires_grad and bool(torch.isfinite(zd).any()):
+                                zd[torch.isfinite(zd)].sum().backward()
+                                grads = []
+                                for i, el in enumerate(info['TL']):
+                                    w = fgg.factors[el.name].weights
+                                    g = w.physical.grad
+                                    gl = [0.0] * len(sh['weights'][i]) if g is None else w.nonphysical().reincarnate(g).to_dense().reshape(-1).tolist()
+                                    if name == 'log':   # the derivative w.r.t. a log-weight of -inf is not claimed
+                                        gl = [0.0 if wv == 0 else x for x, wv in zip(gl, sh['weights'][i])]
+                                    grads += gl if perms is None else unperm(shape, perms, shape['terms'][i], gl)
                         if perms is not None:
                             val = start_perm(shape, perms, val)
                         out = (val, grads)
@@ -123,7 +141,8 @@ def run(ctx):
                     ctx.evaluations += 1
                     if key not in results:
                         results[key] = out
-                    elif not same(results[key], out, exact=not (recursive and name in ('real', 'log'))):
+                    elif not same(results[key], out, exact=(name != 'log' and not (recursive and name == 'real')),
+                              rtol=1e-6 if recursive else 1e-12):
                         ctx.fail(f'{name}/{method}: result depends on how the grammar is written down (presentation {p})',
                                  dict(case, presentation=p, kwargs={k: v for k, v in kw.items() if k != 'rng'}), out, results[key],
                                  tags=['presentation', name, method])
@@ -147,7 +166,9 @@ def run(ctx):
                     ctx.fail(f'viterbi raised {type(e).__name__} in presentation {p}', dict(case, presentation=p), repr(e), None, tags=['raises'])
 
 
-def same(a, b, exact):
+def same(a, b, exact, rtol=1e-6):
+    # Log-semiring values go through exp/log, whose roundings depend on the summation order: the property
+    # asks for equality 'within floating-point tolerance', so log is never compared bit-for-bit
     if a[0] == 'raise' or b[0] == 'raise':
         return a == b
     def eq(x, y):
@@ -155,7 +176,7 @@ def same(a, b, exact):
             return True
         if exact or math.isinf(x) or math.isinf(y):
             return False
-        return abs(x - y) <= 1e-6 * max(1.0, abs(x), abs(y))
+        return abs(x - y) <= rtol * max(1.0, abs(x), abs(y))
     va, ga = a
     vb, gb = b
     if len(va) != len(vb) or not all(eq(x, y) for x, y in zip(va, vb)):
